@@ -93,8 +93,7 @@ struct SIMDVector<std::complex<float>, simd_abi::avx512> {
                            scalar_value_type num10, scalar_value_type num11,
                            scalar_value_type num12, scalar_value_type num13,
                            scalar_value_type num14, scalar_value_type num15) {
-        const scalar_value_type tmp[Size] = {num0,num1,num2,num3,num4,num5,num6,num7,
-                                                num8,num9,num10,num11,num12,num13,num14,num15};
+        const scalar_value_type tmp[Size] = {num15,num14,num13,num12,num11,num10,num9,num8,num7,num6,num5,num4,num3,num2,num1,num0};
         complex_unaligned_load(tmp);
     }
 
@@ -638,7 +637,7 @@ struct SIMDVector<std::complex<float>, simd_abi::avx> {
                            scalar_value_type num2, scalar_value_type num3,
                            scalar_value_type num4, scalar_value_type num5,
                            scalar_value_type num6, scalar_value_type num7) {
-        const scalar_value_type tmp[Size] = {num0,num1,num2,num3,num4,num5,num6,num7};
+        const scalar_value_type tmp[Size] = {num7,num6,num5,num4,num3,num2,num1,num0};
         complex_unaligned_load(tmp);
     }
 
@@ -1159,7 +1158,7 @@ struct SIMDVector<std::complex<float>, simd_abi::sse> {
     }
     FASTOR_INLINE void set(scalar_value_type num0, scalar_value_type num1,
                            scalar_value_type num2, scalar_value_type num3) {
-        const scalar_value_type tmp[Size] = {num0,num1,num2,num3};
+        const scalar_value_type tmp[Size] = {num3,num2,num1,num0};
         complex_unaligned_load(tmp);
     }
 
